@@ -188,14 +188,50 @@ def analyze(args):
                 so2 = [z3.substitute(e, *[(a, b) for a, b in zip(oth, oth2)]) if oth else e for e in so]
                 pre.extend(a == b for a, b in zip(so, so2))
             bad = cnt1 != cnt2
-            r = solve.check_sat_forked(bad, pre, model_terms=oth + oth2 + vsyms, timeout_s=timeout_s, kind="bits")
+            known_syms = [s_ for s_ in syms if s_.get_id() in known]
+            r = solve.check_sat_forked(bad, pre, model_terms=oth + oth2 + vsyms + known_syms, timeout_s=timeout_s, kind="bits")
             ob["verdict"] = r.verdict
             ob["secs"] = round(r.secs, 3)
             ob["tactic"] = r.tactic
             if r.verdict == "sat":
                 status = "sat"
                 if r.model is not None:
-                    ob["cex"] = dict(others=[str(e) for e in oth], xo=r.model[:len(oth)], xo2=r.model[len(oth):2 * len(oth)], view_value=r.model[2 * len(oth):])
+                    no = len(oth)
+                    nv = len(vsyms)
+                    env = {e.get_id(): v for e, v in zip(oth, r.model[:no])}
+                    env2 = {e.get_id(): v for e, v in zip(oth, r.model[no:2 * no])}
+                    kenv = {e.get_id(): v for e, v in zip(known_syms, r.model[2 * no + nv:])}
+                    ob["cex"] = dict(others=[str(e) for e in oth], xo=r.model[:no], xo2=r.model[no:2 * no], view_value=r.model[2 * no:2 * no + nv])
+                    # recipe for the native replay: concrete value of every symbol, the tape symbols enumerated
+                    def val_of(v, envx, ubits):
+                        outv = []
+                        for e in flat_elems(v):
+                            i = e.get_id()
+                            if z3.is_bv_value(e):
+                                outv.append(e.as_long())
+                            elif i in envx:
+                                outv.append(envx[i])
+                            elif i in kenv:
+                                outv.append(kenv[i])
+                            elif i in ubits:
+                                outv.append(ubits[i])
+                            else:
+                                outv.append(0)
+                        return outv
+                    view_nodes = [nid for nid, s_, r_ in sends if r_ == P and not all(
+                        z3.is_const(e) and e.decl().kind() == z3.Z3_OP_UNINTERPRETED and e.decl().name().startswith("R") for e in flat_elems(pv[P][nid]))]
+                    runs = []
+                    if len(U) <= 10:
+                        for which, envx in (("xo", env), ("xo2", env2)):
+                            for bits in itertools.product([0, 1], repeat=len(U)):
+                                ub = {u.get_id(): b for u, b in zip(U, bits)}
+                                inputs3 = [[mc.nest_like(in3[k][p], val_of(in3[k][p], envx, ub), [0]) for p in range(3)] for k in range(len(in_types))]
+                                ovr = [{}, {}, {}]
+                                for (where, who), v in it.rand_at.items():
+                                    if who is not None and len(where) == 2:
+                                        ovr[who]["%d:%d" % where] = (mc.value_type(v).to_json(), mc.nest_like(v, val_of(v, envx, ub), [0]))
+                                runs.append(dict(which=which, inputs3=inputs3, overrides=ovr))
+                    ob["replay"] = dict(view_nodes=view_nodes, runs=runs, in_own_out=bool(own_out), P=P)
             elif r.verdict != "unsat" and status == "unsat":
                 status = "unknown"
             out["observers"].append(ob)
@@ -204,6 +240,33 @@ def analyze(args):
         out["status"] = "unsupported"
         out["note"] = str(e)
     return out
+
+
+def native_view_histograms(case, ob):
+    """enumerate the unknown tape in the real three-party executor for both input vectors of the
+    solver model and compare the histograms of the observer's view. returns (differ, text) or None"""
+    rp = ob.get("replay")
+    if not rp or not rp["runs"]:
+        return None
+    in_types = [T.from_json(j) for j in case["in_types"]]
+    stages, idx = mc.mpc_stages(case["owners"], case["outs"], case["mode"])
+    pes = []
+    for r in rp["runs"]:
+        inputs = [[vals.enc(in_types[k], r["inputs3"][k][p]) for p in range(3)] for k in range(len(in_types))]
+        ovr = [{key: vals.enc(T.from_json(tj), d) for key, (tj, d) in o.items()} for o in r["overrides"]]
+        pes.append(dict(ctx=idx["F"], inputs=inputs, overrides=ovr))
+    rr = drv.run_job(dict(ctx=case["prog"], stages=stages, dump=[], party_evals=pes))
+    hist = {"xo": {}, "xo2": {}}
+    P = rp["P"]
+    for r, pe in zip(rp["runs"], rr.get("party_evals", [])):
+        parties = pe.get("parties")
+        if not parties:
+            return None
+        rec = parties[P].get("received", {})
+        view = tuple(str(rec.get(str(n))) for n in rp["view_nodes"]) + ((str(parties[P].get("output")),) if rp["in_own_out"] else ())
+        hist[r["which"]][view] = hist[r["which"]].get(view, 0) + 1
+    differ = hist["xo"] != hist["xo2"]
+    return differ, "histogram for the first input vector %s ; for the second %s" % (sorted(hist["xo"].items())[:4], sorted(hist["xo2"].items())[:4])
 
 
 def main():
@@ -222,6 +285,16 @@ def main():
             chk.count("tape_bits_unrolled", ob["U"] if ob["verdict"] in ("unsat", "sat") else 0)
             chk.solver_secs += ob.get("secs", 0.0)
             if ob["verdict"] == "sat":
+                rep = native_view_histograms(c, ob)
+                (ob.get("replay") or {}).pop("runs", None)
+                chk.count("models_replayed")
+                if rep is None:
+                    chk.inconc("%s observer %d: solver model could not be replayed (unknown tape too large for enumeration)" % (c["id"], ob["P"]))
+                    continue
+                if not rep[0]:
+                    chk.inconc("%s observer %d: the view histograms computed by the real three-party executor do not differ: %s" % (c["id"], ob["P"], rep[1][:300]))
+                    continue
+                ob["native"] = rep[1]
                 chk.violation("view|%s|observer%d|outs=%s" % (c["template"], ob["P"], c["outs"]),
                               "%s owners=%s outs=%s: the view of party %d has different distributions for other-party inputs %s vs %s (same own output); view value %s" % (
                                   c["id"], c["owners"], c["outs"], ob["P"], (ob.get("cex") or {}).get("xo"), (ob.get("cex") or {}).get("xo2"), (ob.get("cex") or {}).get("view_value")),
@@ -236,7 +309,7 @@ def main():
     chk.outside = ["wider scalar types (the sufficient-condition tier of DESIGN §5 C03 was not built)", "observers whose unknown tape exceeds %d bits (counted as 'outside', not as pass)" % MAX_U,
                    "inputs that are already secret-shared", "programs with data-dependent permutations (sort) and joins", "PRF key hand-over messages are dropped from the view (bare random draws, independent of everything else in the idealised-PRF model) - checked not to occur inside any other message"]
     chk.assumptions = ["PRF outputs idealised as independent uniform bits per (key term, counter, element); two parties get the same bit iff they hold the same key term",
-                       "violations are solver models (view distributions differ); they are NOT replayed by enumerating the tape in the real three-party executor in this version - stated limitation"]
+                       "solver models are replayed: the unknown tape (<= 10 bits) is enumerated in the real three-party executor for both input vectors and the histograms of the observer's view are compared"]
     chk.finish(dict(explanation="exact view-distribution equality by unrolling the unknown tape inside one SMT query per (program, observer): cardinalities as bit-vector sums of indicator terms over 2^|u| constant-folded copies of the real compiled graph's view terms",
                     evaluations=len(cases) * 3, distinct_nontrivial=len({(c["template"], tuple(c["outs"])) for c in cases}),
                     rule="(program, owner vector, output set, mode) x observer; non-trivial = the observer receives at least one non-key message"))
